@@ -85,6 +85,8 @@ def run(F, rep, tier):
         mods[m] = syparse.read_module(F.read(os.path.join("std", m + ".sy")))
     externals(rep, lua, mods)
     callback_roles(rep, lua, mods)
+    search_first_match(rep, lua, mods)
+    elements_are_values(rep, lua)
     aliases(rep, mods)
     key_norm(rep, lua)
     key_injective(rep, lua)
@@ -231,6 +233,105 @@ def callback_roles(rep, lua, mods):
                                        "cannot tell the role of argument %d (`%s`) that %s passes to its callback `%s`" % (
                                            j + 1, luaparse.show(a), name, pname), "sylt-compiler/src/preamble.lua:%s" % c.get("line"))
     rep.floor("CALLBACK-ROLES", "callback arguments with an inferred role", n, 10)
+
+
+def elements_are_values(rep, lua, rule="VALUE-SEM"):
+    """Tuples, and whatever else a container holds, are values: the program that put `(1, "a")` into a list and a dict holds
+    two equal values, not one shared cell.  A library function may store into the container it was given (that is what
+    `set` / `update` are for) and into tables it has just made; it does not store into an *element* it took out of a container
+    (`local e = dict[key]; e[2] = v`, or the loop variable of pairs()) - the same table may sit in another container or variable."""
+    n = 0
+    for fname, (kind, f) in sorted(lua.globals.items()):
+        if kind != "function":
+            continue
+        params = set(f["params"])
+        origin = {}
+        for st in luaparse.walk(f["body"]):
+            if st.get("k") == "Local":
+                for i, nm in enumerate(st["names"]):
+                    origin.setdefault(nm, ("init", st["es"][i] if i < len(st["es"]) else None))
+            elif st.get("k") == "ForIn":
+                for nm in st["names"]:
+                    origin.setdefault(nm, ("loop", st))
+            elif st.get("k") == "ForNum":
+                origin.setdefault(st["var"], ("num", st))
+        k_ = 0
+        for st in luaparse.walk(f["body"]):
+            if st.get("k") != "Assign":
+                continue
+            for t in st["targets"]:
+                if t.get("k") != "Index":
+                    continue
+                base = t["obj"]
+                while base.get("k") in ("Paren",):
+                    base = base["e"]
+                if base.get("k") != "Name":
+                    # a store through a longer path `a[i][j] = v`: into an element of the container
+                    if base.get("k") == "Index":
+                        n += 1
+                        k_ += 1
+                        rep.ob(rule, "%s|store#%d" % (fname, k_), False,
+                               "%s stores through `%s`: into an element it reads out of a container, which other containers and "
+                               "variables may share" % (fname, luaparse.show(t)), "sylt-compiler/src/preamble.lua:%s" % st.get("line"))
+                    continue
+                nm = base["name"]
+                if nm in params or nm not in origin:
+                    n += nm in params
+                    continue  # the container itself, or a table of the runtime (not a local)
+                n += 1
+                k_ += 1
+                how, src = origin[nm]
+                taken = how == "loop" or (how == "init" and isinstance(src, dict) and src.get("k") == "Index")
+                rep.ob(rule, "%s|store#%d" % (fname, k_), not taken,
+                       "%s stores into `%s`, a table it made itself" % (fname, nm) if not taken else
+                       "%s stores into `%s`, which it took out of a container (%s): the element is a value that the list it came from, "
+                       "or another variable, still holds - `l :: [(1, \"a\")]  d :: dict.from_list(l)  dict.update(d, 1, \"b\")` must leave "
+                       "l[0] as it was" % (fname, nm, "the loop variable of pairs()" if how == "loop" else "`%s`" % luaparse.show(src)),
+                       "sylt-compiler/src/preamble.lua:%s" % st.get("line"))
+    rep.floor(rule, "indexed stores of library functions (into the given container or a local table)", n, 6)
+
+
+def search_first_match(rep, lua, mods, rule="SEARCH"):
+    """`find` answers the *first* element (in list order) that satisfies the predicate - that is what the plain model of a
+    list does.  An external shaped `[T], (T -> bool) -> Maybe(T)` walks the list with pairs / ipairs; where the predicate holds
+    the walk has to end (return / break) - a walk that goes on answers the last match instead."""
+    n = 0
+    for mname, mod in sorted(mods.items()):
+        for name, types in sorted(mod["externals"].items()):
+            for t in types:
+                if t[0] != "fn" or name not in lua.globals or lua.globals[name][0] != "function":
+                    continue
+                if not (t[3][0] == "user" and t[3][1].split(".")[-1] == "Maybe"):
+                    continue
+                preds = [i for i, p_ in enumerate(t[2]) if p_[0] == "fn" and p_[3] == ("bool",) or (p_[0] == "fn" and p_[3][0] == "bool")]
+                lists = [i for i, p_ in enumerate(t[2]) if p_[0] == "list"]
+                if not preds or not lists:
+                    continue
+                f = lua.globals[name][1]
+                pname = f["params"][preds[0]] if preds[0] < len(f["params"]) else None
+                tests = []
+                for lp in luaparse.walk(f["body"]):
+                    if lp.get("k") not in ("ForIn", "ForNum", "While", "Repeat"):
+                        continue
+                    for x in luaparse.walk(lp["body"]):
+                        if x.get("k") != "If":
+                            continue
+                        for cond, blk in x["clauses"]:
+                            if any(c.get("k") == "Call" and c["f"].get("k") == "Name" and c["f"]["name"] == pname for c in luaparse.walk(cond)):
+                                tests.append((x, blk))
+                n += 1
+                if not tests:
+                    rep.ob(rule, "%s.%s|stops-at-the-first-match" % (mname, name), False,
+                           "%s is declared as a search (`[T], (T -> bool) -> Maybe(T)`) but no loop of its Lua definition tests the "
+                           "predicate: cannot see which match it answers" % name, "sylt-compiler/src/preamble.lua:%s" % f.get("line"))
+                    continue
+                goes_on = [x for x, blk in tests if not (blk["stmts"] and blk["stmts"][-1].get("k") in ("Return", "Break", "Goto"))]
+                rep.ob(rule, "%s.%s|stops-at-the-first-match" % (mname, name), not goes_on,
+                       "%s leaves its loop at the first element the predicate accepts" % name if not goes_on else
+                       "%s goes on walking the list after the predicate has accepted an element: what it answers is the *last* match "
+                       "(`find([1, 2, 3, 4], fn x -> x > 1)` gives Just(4) where the model gives Just(2))" % name,
+                       "sylt-compiler/src/preamble.lua:%s" % (goes_on[0].get("line") if goes_on else tests[0][0].get("line")))
+    rep.floor(rule, "search externals ([T], (T -> bool) -> Maybe(T))", n, 1)
 
 
 def aliases(rep, mods):
